@@ -62,12 +62,14 @@ type c07 struct {
 	cancel  context.CancelFunc
 	armed   bool
 	garbage map[int64]bool // log sequences of undecodable entries
+	part2   replica.Partition // the log of another leader of the same family, replicated to this node (nil = none)
 	shutting bool          // a clean shutdown is in progress (overlap mode)
 	crashFS float64
 	crashY  float64
 }
 
 const c07Leader = models.NodeID(1)
+const c07Leader2 = models.NodeID(2) // another leader of the same family whose log is replicated to this node
 
 func genC07(rng *rand.Rand, tier string) *core.Plan {
 	p := &core.Plan{Harness: "node", Prop: "C07", Cfg: map[string]int{}}
@@ -79,13 +81,21 @@ func genC07(rng *rand.Rand, tier string) *core.Plan {
 	p.Cfg["crash_fs_pm"] = []int{0, 5, 20, 60}[rng.Intn(4)]  // per file-system operation, while armed
 	p.Cfg["crash_y_pm10"] = []int{0, 2, 10, 40}[rng.Intn(4)] // per 10000 function entries, while armed
 	overlap := rng.Intn(3) == 0                                // clean shutdowns do not wait for a running flush job
+	other := rng.Intn(2) == 0                                  // the node also holds the log of another leader of the family
+	if other {
+		p.Cfg["other_leader"] = 1
+	}
 	n := 5 + rng.Intn(12)
 	for i := 0; i < n; i++ {
 		switch r := rng.Intn(100); {
 		case r < 4:
 			p.Ops = append(p.Ops, core.Op{K: "garbage"}) // a log entry that cannot be decoded (skipped by the replicator)
 		case r < 40:
-			p.Ops = append(p.Ops, core.Op{K: "append", A: int64(1 + rng.Intn(3)), B: int64(1 + rng.Intn(3))}) // A messages of B rows
+			ap := core.Op{K: "append", A: int64(1 + rng.Intn(3)), B: int64(1 + rng.Intn(3))} // A messages of B rows
+			if other && rng.Intn(3) == 0 {
+				ap.C = 1
+			}
+			p.Ops = append(p.Ops, ap)
 		case r < 60:
 			p.Ops = append(p.Ops, core.Op{K: "flush"}) // request a flush job, do not wait
 		case r < 68:
@@ -189,11 +199,25 @@ func (h *c07) start(first bool) bool {
 		return false
 	}
 	h.part = p
+	h.part2 = nil
+	if c.Plan.C("other_leader", 0) == 1 {
+		// as the replica handler does when the stream of that leader opens
+		p2, err := h.walMgr.GetOrCreateLog(h.db).GetOrCreatePartition(0, Jan1, c07Leader2)
+		if err != nil {
+			c.Violate("C07/reopen-failed", "partition of the other leader: %v", err)
+			return false
+		}
+		if err := p2.BuildReplicaForFollower(c07Leader2, c07Leader); err != nil {
+			c.Violate("C07/reopen-failed", "build replica for the other leader's log: %v", err)
+			return false
+		}
+		h.part2 = p2
+	}
 	if !first {
 		// nothing was flushed since the start: the log's acknowledged position must not be ahead of the
 		// sequence stored with the flushed data
 		rep := replica.VerifReplicators(p)[int(c07Leader)]
-		persisted := h.persisted()
+		persisted := h.persistedOf(c07Leader)
 		// an undecodable entry right behind the stored sequence has nothing to store: skipping it may acknowledge it
 		for h.garbage[persisted+1] {
 			persisted++
@@ -201,6 +225,13 @@ func (h *c07) start(first bool) bool {
 		if rep != nil && rep.AckIndex() > persisted {
 			c.Violate("C07/ack-ahead-of-stored-sequence", "after recovery the log is acknowledged up to %d, the sequence stored with the flushed data is %d", rep.AckIndex(), persisted)
 			return false
+		}
+		if h.part2 != nil {
+			rep2 := replica.VerifReplicators(h.part2)[int(c07Leader)]
+			if p2 := h.persistedOf(c07Leader2); rep2 != nil && rep2.AckIndex() > p2 {
+				c.Violate("C07/ack-ahead-of-stored-sequence", "after recovery the log of the other leader is acknowledged up to %d, the sequence stored for that leader with the flushed data is %d", rep2.AckIndex(), p2)
+				return false
+			}
 		}
 	}
 	return true
@@ -218,23 +249,26 @@ func (h *c07) family() tsdb.DataFamily {
 	return f
 }
 
-func (h *c07) persisted() int64 {
+func (h *c07) persisted() int64 { return h.persistedOf(c07Leader) }
+func (h *c07) applied() int64   { return h.appliedOf(c07Leader) }
+
+func (h *c07) persistedOf(leader models.NodeID) int64 {
 	f := h.family()
 	if f == nil {
 		return -1
 	}
-	if s, ok := f.GetState().AckSequences[int32(c07Leader)]; ok {
+	if s, ok := f.GetState().AckSequences[int32(leader)]; ok {
 		return s
 	}
 	return -1
 }
 
-func (h *c07) applied() int64 {
+func (h *c07) appliedOf(leader models.NodeID) int64 {
 	f := h.family()
 	if f == nil {
 		return -1
 	}
-	if s, ok := f.GetState().ReplicaSequences[int32(c07Leader)]; ok {
+	if s, ok := f.GetState().ReplicaSequences[int32(leader)]; ok {
 		return s
 	}
 	return -1
@@ -249,7 +283,13 @@ func (h *c07) catchUp() bool {
 			appended-- // skipped entries are never applied
 		}
 		rep := replica.VerifReplicators(h.part)[int(c07Leader)]
-		if appended < 0 || (rep != nil && rep.Pending() == 0 && h.applied() >= appended) {
+		ok2 := true
+		if h.part2 != nil {
+			app2 := replica.VerifPartitionLog(h.part2).Queue().AppendedSeq()
+			rep2 := replica.VerifReplicators(h.part2)[int(c07Leader)]
+			ok2 = app2 < 0 || (rep2 != nil && rep2.Pending() == 0 && h.appliedOf(c07Leader2) >= app2)
+		}
+		if ok2 && (appended < 0 || (rep != nil && rep.Pending() == 0 && h.applied() >= appended)) {
 			return true
 		}
 		simrt.Sleep(time.Millisecond)
@@ -440,7 +480,16 @@ func runC07(c *core.RunCtx) {
 							return
 						}
 						h.msgs = append(h.msgs, m)
-						if err := h.part.WriteLog(b); err != nil {
+						if op.C == 1 && h.part2 != nil {
+							// an entry of the other leader's log, as its replica stream delivers it
+							idx := replica.VerifPartitionLog(h.part2).Queue().AppendedSeq() + 1
+							got, err := h.part2.ReplicaLog(idx, b)
+							if err != nil || got != idx {
+								c.Anomaly("ReplicaLog(%d): %d %v", idx, got, err)
+								return
+							}
+							sim.Probe("entry-of-another-leader")
+						} else if err := h.part.WriteLog(b); err != nil {
 							c.Anomaly("WriteLog: %v", err)
 							return
 						}
@@ -471,6 +520,9 @@ func runC07(c *core.RunCtx) {
 				case "gc":
 					sim.Fault("log-gc")
 					h.part.IsExpire() // Sync + GC of the log, as the manager's housekeeping task does
+					if h.part2 != nil {
+						h.part2.IsExpire()
+					}
 				case "tick":
 					simrt.Sleep(time.Duration(op.A) * time.Millisecond)
 				case "expire":
